@@ -221,7 +221,7 @@ def run(tier: str) -> dict:
             'levels': [],
             'errors': [f"harness-error: transpiled and real checker disagree on {len(val['mismatches'])} of {val['streams']} streams, first: {val['mismatches'][0]}"],
         }
-    res = common.run_levels(levels(tier))
+    res = common.run_levels(common.tiered(levels, tier))
     res['validated_traces'] = res.get('validated_traces', 0) + val['streams']
     res['extra'] = {'translation_validation': {k: v for k, v in val.items() if k != 'mismatches'}}
     return res
